@@ -39,10 +39,12 @@ def h_main(jC: int, jH: int, jO: int, jq: int, qC: int, qH: int, qO: int, qq: in
     out, st = r
     tw = PART.get("twin")
     n = len(pc.input_rows(PART))
-    if len(out) != n:
-        return True  # row loss is C05's subject
     if tw == "stats":
         return not st
+    if st.get("reaction_cnt") != n:
+        return False  # the reaction count is the number of input rows, also when a row is dropped (C05 findings)
+    if len(out) != n:
+        return True  # row loss itself is C05's subject; the remaining relations are stated over the returned rows
     def cnt(pred):
         k = 0
         for row in out:
@@ -76,6 +78,11 @@ def plan(tier):
         for bs in ((None, 1) if tier == "thorough" else (None,)):
             p2 = dict(params, batch_size=bs)
             P.append(Part(H + "h_main", p2, name.replace("]", ",bs=%s]" % bs), kind=kind, group="pipeline-2rows", timeout=1500, path_timeout=120))
+    # a batch in which one row does not parse (it is dropped: known C05 finding): reaction_cnt still counts it
+    for order in (0, 1):
+        fx = dict(pc.ROW2["input-balanced"])
+        fx.update({"m1": 0, "jq": 0, "qq": 0})
+        P.append(Part(H + "h_main", {"shape": ["j>>q", "w>>x"], "order": order, "E": ["C", "H"], "K": 2, "invalid": ["w"], "fix": fx}, "pipe2[row w>>x unparsable|order=%d]" % order, group="pipeline-2rows", timeout=1500))
     P.append(Part(H + "h_main", {"shape": ["j>>q"], "E": ["C", "H"], "K": 2, "twin": "stats", "fix": {"m1": 0, "jq": 0, "qq": 0}}, "pipe.twin[stats]", kind="twin", group="pipeline-1row", timeout=600))
     return P
 
